@@ -512,7 +512,8 @@ def validate_trace(ctx, module, cfg, events, what, env=None, nexec=None, key="tr
             ctx.violation("trace-offlattice", "%s: event %d carries a value that is not on the lattice the specification prescribes: %s" % (what, i + 1, json.dumps(e)[:600]),
                           {"events": events[max(0, i - 6):i + 1]})
             return None
-    path = os.path.join(ctx.workdir, "%s_%d.ndjson" % (module, len(events)))
+    import uuid
+    path = os.path.join(ctx.workdir, "%s_%d_%s.ndjson" % (module, len(events), uuid.uuid4().hex[:8]))
     write_ndjson(path, events)
     e = {"TRACE": path}
     if env:
